@@ -38,4 +38,13 @@ def singleAttempt (said : List Said) (order : List Nat) (fromBackend : Option Go
 def interimsFromLastAttempt (order : List Nat) (interims : List Nat) : Bool :=
   interims.all (fun b => order.getLast? == some b)
 
+/-- "exactly those produced by one single backend attempt" read for an attempt that ran to its end: when the attempt whose
+    answer the client holds (the last one dispatched) produced its whole answer (`completed`) and the client stayed until
+    the response ended (`stayed`), the body the client holds is that answer's body — all of it, no more, no less. For a
+    client that went away, or an attempt that broke off, nothing beyond `singleAttempt` is demanded. -/
+def wholeWhenCompleted (said : List Said) (order : List Nat) (completed stayed : Bool) (fromBackend : Option Got) : Bool :=
+  match fromBackend with
+  | none => true
+  | some c => !(completed && stayed) || said.any (fun b => order.getLast? == some b.name && c.body == b.body)
+
 end Olla.Spec.C02
